@@ -8,6 +8,11 @@ Section Local.
   Variable run_cb : world -> modid -> cbkind -> nat -> list evtrec -> world * bool.
   Notation exec := (exec sc run_cb).
 
+  (* calls made by the owning thread *)
+  Definition own_call (c : call) : Prop := match c with CForeign _ _ => False | _ => True end.
+  Lemma exec_is_own cur w c : own_call c -> exec cur w c = exec_own sc run_cb cur w c.
+  Proof. destruct c; cbn; try reflexivity; contradiction. Qed.
+
   Definition neg (z : Z) : Prop := (z < 0)%Z.
   Lemma neg_codes : neg rEINVAL /\ neg rEPERM /\ neg rEACCES /\ neg rEEXIST /\ neg rENOENT /\ neg rEAGAIN /\ neg rEPIPE.
   Proof. unfold neg. repeat split; vm_compute; reflexivity. Qed.
@@ -32,7 +37,8 @@ Section Local.
   Lemma mod_assert_neg w m e : mod_assert w m = Some e -> neg e.
   Proof. codes. unfold mod_assert. destruct (get_mod w m) as [mr|]; [|intros H'; inversion H'; subst; auto].
          destruct (mstate_eqb (m_state mr) MZombie); [intros H'; inversion H'; subst; auto|].
-         destruct (the_ctx w); intros H'; inversion H'; subst; auto. Qed.
+         destruct (the_ctx w) as [c|]; [|intros H'; inversion H'; subst; auto].
+         destruct (ctx_obj_of w mr) as [o|]; [destruct (Nat.eqb o (c_obj c))|]; intros H'; inversion H'; subst; auto. Qed.
   Lemma mod_assert_state_neg w m l e : mod_assert_state w m l = Some e -> neg e.
   Proof. codes. unfold mod_assert_state. destruct (mod_assert w m) eqn:E; [intros H'; inversion H'; subst; eapply mod_assert_neg; eauto|].
          destruct (get_mod w m) as [mr|]; [|intros H'; inversion H'; subst; auto].
@@ -67,7 +73,7 @@ Section Local.
     codes. intros Hc Hm Hs.
     destruct (mod_assert_state_wrong w m mr l Hm Hs) as (e & He).
     pose proof (mod_assert_state_neg _ _ _ _ He) as Hn.
-    unfold CoreExec.exec.
+    unfold CoreExec.exec, exec_own.
     destruct c; cbn in Hc; try discriminate; inversion Hc; subst; cbn [call_handle]; rewrite emit_uref;
       (destruct (Nat.eqb (uref_count w m) 0); [apply refused_intro; auto|]);
       unfold exec_call; rewrite emit_mod_assert_state, He; apply refused_intro; auto.
@@ -77,7 +83,7 @@ Section Local.
   Theorem dereg_zombie_refused cur w m mr :
     get_mod w m = Some mr -> m_state mr = MZombie -> refused w (exec cur w (CDereg m)).
   Proof.
-    codes. intros Hm Hz. unfold CoreExec.exec. cbn [call_handle]. rewrite emit_uref.
+    codes. intros Hm Hz. unfold CoreExec.exec, exec_own. cbn [call_handle]. rewrite emit_uref.
     destruct (Nat.eqb (uref_count w m) 0); [apply refused_intro; auto|].
     unfold exec_call, retp. unfold mod_deregister, dereg_fuel. rewrite Nat.add_comm. cbn [Nat.add].
     rewrite emit_mod_assert, (mod_assert_zombie w m mr Hm Hz). cbn [fst snd]. apply refused_intro; auto.
@@ -91,7 +97,7 @@ Section Local.
   Theorem become_pushes cur w m h mr w1 :
     uref_count w m <> 0 -> mod_assert_state w m [MRunning] = None -> consume_token w m = Some w1 -> get_mod w1 m = Some mr ->
     exists t a, exec cur w (CBecome m h) = ret (emit (upd_mod w1 m (mod_with_recvs (h :: m_recvs mr))) (TMark t a)) 0.
-  Proof. intros Hu Ha Ht Hm. unfold CoreExec.exec. cbn [call_handle]. rewrite emit_uref. destruct (Nat.eqb_spec (uref_count w m) 0); [contradiction|].
+  Proof. intros Hu Ha Ht Hm. unfold CoreExec.exec, exec_own. cbn [call_handle]. rewrite emit_uref. destruct (Nat.eqb_spec (uref_count w m) 0); [contradiction|].
          unfold exec_call. rewrite emit_mod_assert_state, Ha. rewrite (consume_token_emit _ _ _ _ Ht).
          match goal with |- context [get_mod (emit w1 ?t) m] => change (get_mod (emit w1 t) m) with (get_mod w1 m) end. rewrite Hm.
          eexists. eexists. reflexivity. Qed.
@@ -103,7 +109,7 @@ Section Local.
     | _ :: r => ret (emit (upd_mod w1 m (mod_with_recvs r)) (TMark t a)) 0
     | [] => ret (emit w1 (TMark t a)) rEINVAL
     end.
-  Proof. intros Hu Ha Ht Hm. unfold CoreExec.exec. cbn [call_handle]. rewrite emit_uref. destruct (Nat.eqb_spec (uref_count w m) 0); [contradiction|].
+  Proof. intros Hu Ha Ht Hm. unfold CoreExec.exec, exec_own. cbn [call_handle]. rewrite emit_uref. destruct (Nat.eqb_spec (uref_count w m) 0); [contradiction|].
          unfold exec_call. rewrite emit_mod_assert_state, Ha. rewrite (consume_token_emit _ _ _ _ Ht).
          match goal with |- context [get_mod (emit w1 ?t) m] => change (get_mod (emit w1 t) m) with (get_mod w1 m) end. rewrite Hm.
          eexists. eexists. destruct (m_recvs mr); reflexivity. Qed.
